@@ -452,11 +452,22 @@ class Assign(Statement, AssignBase):
         return result
 
     def map_expressions(self, mapper, include_lhs=True):
+        from pymbolic.primitives import Variable
+
+        def map_ident(ident):
+            # Loop identifiers are assigned by the statement, like the
+            # left-hand side, and are referred to by its other expressions.
+            if not include_lhs:
+                return ident
+            new_ident = mapper(Variable(ident))
+            assert isinstance(new_ident, Variable)
+            return new_ident.name
+
         return (super()
                 .map_expressions(mapper, include_lhs=include_lhs)
                 .copy(
                     loops=[
-                        (ident, mapper(start), mapper(end))
+                        (map_ident(ident), mapper(start), mapper(end))
                         for ident, start, end in self.loops]))
 
     def __str__(self):
